@@ -368,7 +368,7 @@ func rulePatternNonEmpty(c *Ctx) {
 	p := c.P
 	roles := p.Roles()
 	n := 0
-	for _, reg := range muxRegistrations(p) {
+	for _, reg := range serviceRegistrations(p) {
 		if !roles.MutatorPath[reg.Fn] {
 			continue
 		}
